@@ -8,7 +8,7 @@ PROP = dict(
     harness_bin="c13",
     mismatch_is_violation=True,
     rule="the (scrutinee type, arm list) universe of C12 (harness/src/patuniv.rs; a different seeded stream) plus every "
-         "pair of float spellings (equal and different values) as consecutive arms, bare and inside a tuple with an "
+         "pair of float spellings as consecutive arms (equal values in other spellings `1.`/`01.0`/`1_0.0`; adjacent doubles closer than f64::EPSILON: 0.3 / 0.30000000000000004, 0.0 / 1e-16, 1e-300 and its neighbour, the two smallest subnormals; last-bit neighbours at 1.5 and 2^52+1 as control; two spellings overflowing to +inf, f64::MAX), bare and inside a tuple with an "
          "or-pattern; each program is checked by the real checker (check_lsp), the arms reported redundant are mapped back "
          "through the label spans; compared: one useful/redundant flag per arm; spec oracle: brute-force reachability over "
          "every value of the finite representative domain (reported <=> no value reaches the arm first); placement dimension (D70): case i stands at one of 17 syntactic placements in rotation (let initialiser, arm body and scrutinee of another match, function / lambda / task / block / if / else / while / for body, call argument, array / tuple / struct literal element, index of an assignment target, struct-field default); every third case is also checked as a let initialiser and both verdicts must be equal; two fixed matches are checked at all 17 placements; non-trivial = at "
